@@ -20,6 +20,13 @@ CLAIMED = {
              "format-name table injectivity discharged by kernel evaluation on the regenerated table; byte-exact differential runs of image_to_bin / bin_to_image.",
         note="Trusted: Lean kernel + standard axioms; lz4/bincode/wgpu serde modelled and tied by sampled byte-exact correspondence; translator; harness.",
         technique="Lean 4 proof (LZ4 + bincode round trips, table lookup inversion) + differential correspondence", ref="§7 C13"),
+    "C14": dict(
+        text="Machine-checked proof of the routing function of the asset endpoint: published ⇒ 200 with identical body and Content-Length iff below the transfer limit; unknown uuid / wrong class ⇒ 404; "
+             "malformed path ⇒ 500; every request gets exactly one response independent of earlier requests; publish-then-GET over any publication history; IPv4/IPv6 base url; "
+             "tied to the code by facts regenerated from `respond`/`serve_*` and by comparing every response of a real endpoint (127.0.0.1 and ::1, sequential and 8 concurrent connections, linearisability) with the model. "
+             "Partial: sockets, thread scheduling and stalled readers are runtime behaviour outside the model.",
+        note="Trusted: Lean kernel + standard axioms; tiny_http behaviour (500 on dropped request, chunking threshold), Uuid::parse_str modelled and tied by sampled differential runs; translator regexes; harness HTTP client.",
+        technique="Lean 4 proof (routing theorems, publication-history induction) + differential correspondence with linearisability check", ref="§7 C14"),
 }
 PENDING_REASON = "not claimed yet: machinery for this property is still being built (see DESIGN.md §10 build order); no check is registered until its theorems and tie run"
 
